@@ -155,7 +155,7 @@ _add(
          "both ends, with and without an extra selector axis) are judged through current_at / spike_at; an in-place "
          "twin is compared bit-for-bit. One evaluation = one step or one delayed query; distinct = (synapse, dt, "
          "delay, tolerance, interpolation, query class, overbound setting, train, inplace, batch) abstractions.",
-    required=["queries_with_nonfinite_out_of_bounds_value", "steps_checked", "queries_checked", "twin_comparisons", "queries.in", "queries.beyond", "queries.negative",
+    required=["synapses_with_the_charge_retuned_after_construction", "queries_with_nonfinite_out_of_bounds_value", "steps_checked", "queries_checked", "twin_comparisons", "queries.in", "queries.beyond", "queries.negative",
               "queries.limit", "queries.band", "queries.snap", "clears", "component_reads_checked", "synapses_redelayed_through_the_setter"],
     floor={"quick": 300, "thorough": 800},
     text="Held on every spike train and selector explored: the real synapses (float64) are stepped on generated trains, "
@@ -255,7 +255,7 @@ _add(
          "accumulator must receive the sum of the two cells' rules), all seven STDP-family trainers. One evaluation = one layer step + trainer call + update judged (parts, net change, "
          "applied change) against sums over recorded spike times; non-trivial when at least one spike pair contributes; "
          "distinct = (trainer, cell type, delay mode, sign mode, trace mode, reduction, batch, reward kind, pairs/no pairs).",
-    required=["cases_with_the_trainer_stepped_from_a_layer_forward_hook", "trainer_steps_checked", "steps_with_pairs", "exhaustive_histories", "per_cell_override_cases", "multicell_steps_checked", "multicell_shared_connection_steps", "fractional_delay_steps_checked", "multicell_frozen_layer_cases", "episode_clears", "multicell_calls_limited_to_named_cells", "multicell_cases_applied_through_trainer_update", "steps_with_accumulated_pending_updates"],
+    required=["cells_registered_with_batch_reduction_none", "cases_with_the_trainer_stepped_from_a_layer_forward_hook", "trainer_steps_checked", "steps_with_pairs", "exhaustive_histories", "per_cell_override_cases", "multicell_steps_checked", "multicell_shared_connection_steps", "fractional_delay_steps_checked", "multicell_frozen_layer_cases", "episode_clears", "multicell_calls_limited_to_named_cells", "multicell_cases_applied_through_trainer_update", "steps_with_accumulated_pending_updates"],
     floor={"quick": 60, "thorough": 150},
     exhaustive={"quick": ["all 4^4 joint pre/post histories of one synapse x 4 sign modes x 2 trace modes"],
                 "thorough": ["all 4^5 joint pre/post histories of one synapse x 4 sign modes x 2 trace modes"]},
@@ -277,7 +277,7 @@ _add(
          "kernels vs the dedicated delay-adjusted rule on identical inputs; (c) all-zero delays vs the undelayed kernel "
          "rule; (d) exactly constructed t_delta == 0 ties. One evaluation = one step judged; distinct = (part, trainer, "
          "cell type, delay values, sign mode, reduction, batch, reward kind, active/silent).",
-    required=["cases_with_the_trainer_stepped_from_a_layer_forward_hook", "formula_steps_checked", "steps_with_change", "steps_before_both_sides_spiked", "trainer_clears", "cross_steps_checked",
+    required=["cells_registered_with_batch_reduction_none", "cases_with_the_trainer_stepped_from_a_layer_forward_hook", "formula_steps_checked", "steps_with_change", "steps_before_both_sides_spiked", "trainer_clears", "cross_steps_checked",
               "zero_delay_steps_checked", "ties_checked", "tensor_valued_kernel_kwargs_cases", "multicell_steps_checked", "kernel_delayed_substep_delay_steps", "multicell_calls_limited_to_named_cells", "user_kernel_cases", "steps_with_accumulated_pending_updates"],
     floor={"quick": 60, "thorough": 150},
     text="Held on every history explored: the change applied by each real delay-adjusted / kernel trainer after every "
